@@ -216,6 +216,7 @@ func (b *backend) collectStorageWriteEvents() {
 			watchEvent, ok := b.watchEventsRingBuffer[idx].Load().(*common.WatchEvent)
 			if !ok || watchEvent == nil {
 				if cnt == 0 {
+					verifYield("seq.idle")
 					// no event in inside loop, continue inside loop
 					continue
 				}
@@ -258,12 +259,14 @@ func (b *backend) collectStorageWriteEvents() {
 			events[cnt] = e
 			cnt++
 			// set watch cache
+			verifYield("seq.before_cache")
 			b.watchCache.Add(e)
 		}
 
 		if cnt > 0 {
 			evs := make([]*proto.Event, cnt)
 			copy(evs, events[:cnt])
+			verifYield("seq.before_broadcast")
 			b.watchChan <- evs
 		}
 	}
